@@ -405,6 +405,8 @@ def run(ch: Checker) -> None:
     ch.check(not offenders, 'C01.8', snd, 'who may send', 'only TcpConnection.send (<- flush) writes to a connection socket', 'direct socket writes found')
     body_calls = [norm(c) for c in walk_no_nested(snd.node) if isinstance(c, ast.Call)]
     ch.check(body_calls == ['self.connection.send(data)'], 'C01.8', snd, 'send body', 'send() passes its argument to the socket unchanged', 'TcpConnection.send is no longer a plain pass-through: %s' % body_calls)
+    # ---------------- C01.11 (shared)
+    ch.import_rules('C07', {'C07.1': 'C01.11'}, 'relayed bytes still queued for the client are lost if the handler signals teardown with a non-empty buffer')
 
 
 def _relay(ch: Checker, fn: FuncInfo, src_call: str, sink_call: str, chain_hook: Optional[str] = None) -> None:
